@@ -243,7 +243,8 @@ def _detect(drv, seed, kf, v, note):
         first = _validate(tr, _tcfg(True, False), "directed")
     p = save_replay(PROP, "mux_directed_rejected.ndjson", src=first.trace_with_header)
     v.violation("muxnote, directed execution 'READ source registered after an armed WRITE source': trace rejected: %s" % _why(first), p)
-    return None
+    # the general runs are made all the same (more evidence), under the variant the known-findings list expects
+    return (KF_LIST not in kf), False
 
 
 def _judge(res, variant, kf, two_readers):
